@@ -520,6 +520,30 @@ func checkC16(c *Ctx, r *Report) {
 	for _, ret := range returnsOf(bt) {
 		u := retResult(ret, 0)
 		key := fmt.Sprintf("%s:return#%s", fname(bt), retKey(c, bt, ret))
+		// the URL may be put together by a small construction helper (`newTargetURL(base, path, query)`): analyse the
+		// helper's own copy-and-assign, with its parameters standing for this call's arguments
+		sub := func(v ssa.Value) ssa.Value { return v }
+		retIn := ssa.Instruction(ret)
+		if call, ok := u.(*ssa.Call); ok {
+			if h := call.Call.StaticCallee(); h != nil && h.Blocks != nil && c.inRepo(h) && describeCall(&call.Call).Pkg != "net/url" {
+				if rets := returnsOf(h); len(rets) == 1 && len(rets[0].Results) == 1 {
+					if a, isA := retResult(rets[0], 0).(*ssa.Alloc); isA {
+						args := call.Call.Args
+						sub = func(v ssa.Value) ssa.Value {
+							if prm, isP := v.(*ssa.Parameter); isP && prm.Parent() == h {
+								for i, hp := range h.Params {
+									if hp == prm && i < len(args) {
+										return args[i]
+									}
+								}
+							}
+							return v
+						}
+						u, retIn = a, rets[0]
+					}
+				}
+			}
+		}
 		// origin
 		origin := ""
 		switch x := u.(type) {
@@ -528,7 +552,7 @@ func checkC16(c *Ctx, r *Report) {
 			for _, ref := range *x.Referrers() {
 				if st, ok := ref.(*ssa.Store); ok && st.Addr == x {
 					if ld, ok := st.Val.(*ssa.UnOp); ok {
-						if ld2, ok := ld.X.(*ssa.UnOp); ok {
+						if ld2, ok := sub(ld.X).(*ssa.UnOp); ok {
 							if fa, ok := ld2.X.(*ssa.FieldAddr); ok && fa.X == ssa.Value(ep) && isField(fa, pkgDomain, "Endpoint", "URL") {
 								origin = "copy of *endpoint.URL"
 							}
@@ -574,11 +598,11 @@ func checkC16(c *Ctx, r *Report) {
 					case "Scheme", "Host", "User", "Opaque":
 						authorityStore = f.Name()
 					case "RawQuery":
-						if mentionsField(st.Val, "net/url", "URL", "RawQuery", 3) && reachAvoiding(st, ret, nil) {
+						if mentionsField(sub(st.Val), "net/url", "URL", "RawQuery", 3) && reachAvoiding(st, retIn, nil) {
 							rawQueryOK = true
 						}
 					case "Path":
-						pathVals = append(pathVals, st.Val)
+						pathVals = append(pathVals, sub(st.Val))
 					}
 				}
 			}
